@@ -1055,6 +1055,43 @@ theorem model_do_probe_ok [DecidableEq J] (pre : Predef) (env : Env V) (n : Node
       · intro ht
         exact (hyes ht).1
 
+/-! ### `constant ⇒ readonly` is established by `Parameter.finish`, whatever class and configuration say -/
+
+/-- **finish_constRO.**  A parameter whose flags come out of `Parameter.finish` (class-level values, overridden by the
+configuration, then "a constant parameter is read-only") satisfies the well-formedness clause `constRO` — for EVERY
+combination of class-level and configured `readonly` / `constant`, in particular for a configuration that says
+`readonly = False` and gives a constant. -/
+theorem finish_constRO (p : Param J V) (i : ParamInit V) (h : (p.withInit i).constant.isSome = true) :
+    (p.withInit i).readonly = true := by
+  unfold Param.withInit finishFlags at *
+  simp only at h ⊢
+  rw [h]; simp
+
+/-- a module all of whose parameters went through `finish` satisfies `Module.constRO` (one assumption of `Node.WF` less
+for nodes built this way, as the driver builds them from the real objects) -/
+theorem constRO_of_finish (m : Module J V)
+    (h : ∀ a ∈ m.accs, ∀ p, a = .param p → ∃ p0 i, p = Param.withInit p0 i) : m.constRO := by
+  intro a ha p hp hc
+  obtain ⟨p0, i, rfl⟩ := h a ha p hp
+  exact finish_constRO p0 i hc
+
+/-- the configuration decides `readonly` where no constant is involved (the model of the override is not vacuous) -/
+theorem cfg_readonly_applied (p : Param J V) (clsR r : Bool) :
+    (p.withInit ⟨clsR, none, some r, none⟩).readonly = r ∧ (p.withInit ⟨clsR, none, none, none⟩).readonly = clsR := by
+  unfold Param.withInit finishFlags; simp
+
+open Frappy.Props.C04.Example in
+/-- non-vacuity: the writable `target` with a configuration `readonly = False, constant = 5` comes out read-only with
+constant 5, and the module built from it satisfies `constRO` -/
+example : ((target.withInit ⟨false, none, some false, some 5⟩).readonly, (target.withInit ⟨false, none, some false, some 5⟩).constant)
+      = (true, some 5) ∧
+    Module.constRO (J := Nat) (V := Nat) { m with accs := [.param (target.withInit ⟨false, none, some false, some 5⟩)] } := by
+  refine ⟨by decide +kernel, constRO_of_finish _ ?_⟩
+  intro a ha p hp
+  simp only [List.mem_singleton] at ha
+  subst ha; injection hp with hp
+  exact ⟨_, _, hp.symm⟩
+
 /-! ### the "lists exactly" monitor -/
 
 theorem mem_exportedPairs (pre : Predef) (n : Node J V) (m a : String) :
